@@ -271,10 +271,15 @@ Definition exec (o : mop) (s : node) : node :=
   if v_failed s || negb (v_up s) then s else
   match o with
   | OSave hs ents snap =>
-      let log' := log_put (d_log s) ents in
-      let hs' := match hs with Some h => h | None => d_hs s end in
-      let '(sn, snc) := match snap with Some (i, _, c) => (i, c) | None => (d_snap s, d_snapc s) end in
-      emit (EvSave hs ents (snap_meta snap)) (set_durable_log log' hs' sn snc s)
+      (* persistReadyDurable: nothing to save, no call *)
+      match hs, ents, snap with
+      | None, [], None => s
+      | _, _, _ =>
+          let log' := log_put (d_log s) ents in
+          let hs' := match hs with Some h => h | None => d_hs s end in
+          let '(sn, snc) := match snap with Some (i, _, c) => (i, c) | None => (d_snap s, d_snapc s) end in
+          emit (EvSave hs ents (snap_meta snap)) (set_durable_log log' hs' sn snc s)
+      end
   | OTrack ents =>
       let '(sub, pend) := trackReadyEntries ents (v_submitted s) (v_pending s) in
       set_futures sub pend (v_leader s) (n_futs s) s
@@ -328,23 +333,23 @@ Record ready := mkReady {
   rd_leader : bool                         (* the role refreshStatus sees after Advance *)
 }.
 
-Definition needsSave (rd : ready) : bool :=
-  match rd_hs rd, rd_ents rd, rd_snap rd with None, [], None => false | _, _, _ => true end.
-
 Definition persistReadyDurable (rd : ready) : list mop :=
-  if needsSave rd then [OSave (rd_hs rd) (rd_ents rd) (rd_snap rd)] else [].
+  [OSave (rd_hs rd) (rd_ents rd) (rd_snap rd)].
 
-Definition processReadySynchronously (s : node) (rd : ready) : list mop :=
-  drain (v_queue s)
-  ++ match rd_snap rd with
-     | Some (i, _, c) => [ORestore i c; OMarkApplied i]
-     | None => []
-     end
+(* the tail of processReadySynchronously, once the pipeline is idle *)
+Definition syncTail (rd : ready) : list mop :=
+  match rd_snap rd with
+  | Some (i, _, c) => [ORestore i c; OMarkApplied i]
+  | None => []
+  end
   ++ map OCall (applyCommittedEntries (rd_committed rd))
   ++ [OMarkApplied (lastApplied (rd_committed rd) 0);
       OAccept (lastApplied (rd_committed rd) (match rd_snap rd with Some (i, _, _) => i | None => 0 end));
       ORefresh (rd_leader rd);
       OResolve (filter is_normal (rd_committed rd))].
+
+Definition processReadySynchronously (s : node) (rd : ready) : list mop :=
+  drain (v_queue s) ++ syncTail rd.
 
 Definition processReadyAsyncNormal (s : node) (rd : ready) (busy : bool) : list mop :=
   match rd_committed rd with
@@ -358,9 +363,9 @@ Definition processReadyAsyncNormal (s : node) (rd : ready) (busy : bool) : list 
 Definition processReady (s : node) (rd : ready) (busy : bool) : list mop :=
   let sync := readyRequiresSynchronousApply (match rd_snap rd with Some _ => true | None => false end) (rd_committed rd) in
   persistReadyDurable rd
-  ++ (if sync then drain (v_queue s) else [])
+  ++ (if sync then drain (v_queue s) else [])      (* waitApplyIdle *)
   ++ [OTrack (rd_ents rd); OSend (rd_msgs rd)]
-  ++ (if sync then processReadySynchronously (set_volatile (v_up s) (v_failed s) (v_applying s) (v_applied s) [] s) rd
+  ++ (if sync then syncTail rd                     (* processReadySynchronously finds the pipeline idle *)
       else processReadyAsyncNormal s rd busy).
 
 (* slot.compactLogAt at the slot's applied index, after waitApplyIdle *)
